@@ -764,6 +764,7 @@ package internal
 //@   requires predicate-ids-injective-and-below-the-counter: $IDS(g.predIDs, g.nextPredID)
 //@   ensures [C11,C12] predicate-ids-stay-injective: $IDS(g.predIDs, g.nextPredID)
 //@   ensures [C11,C12] ids-handed-out-are-never-changed: $STABLE(g.predIDs) && g.predIDs == old(g.predIDs)
+//@   ensures [C11,C12] result-is-the-id-of-the-predicates-sentinel: typeof(tmapAt(g.predIDs, boxed("*go/types.Struct", p.SentinelOutput))) == typeid("int") && dataof(tmapAt(g.predIDs, boxed("*go/types.Struct", p.SentinelOutput))) == result
 
 //@ func (*generatorv2).typeID
 //@   option props=[C13]
